@@ -62,12 +62,12 @@ func runC17(c *report.Ctx) {
 			continue
 		}
 		k := 0
-		an.Instrs(f, func(in ssa.Instruction) {
+		instrsWithLiterals(f, func(in ssa.Instruction) {
 			b, ok := in.(*ssa.BinOp)
 			if !ok || b.Op != token.SUB {
 				return
 			}
-			if _, isPar := b.X.(*ssa.Parameter); !isPar {
+			if _, isPar := an.ResolveCell(b.X).(*ssa.Parameter); !isPar {
 				return
 			}
 			if !strings.HasSuffix(p.Desc(b.Y), ".Height") {
